@@ -1,8 +1,8 @@
 INIT Init
 NEXT Next
 CONSTANTS
-  Dev = {"skip_only_function"}
-  Kinds = {"sig"}
+  Dev = {"cb_return_attrs_dropped"}
+  Kinds = {"attrs"}
   Strict = FALSE
   Full = FALSE
   MaxCnt = 1
